@@ -60,6 +60,9 @@ def inputs_for(bpt, tier):
 
 class C09(Check):
     pid = "C09"
+    level_text = (
+        "Bounded exhaustive over every decoration (scaffold-level and piece-level tags) of <=3-piece scripts; reference routing model from the statement evaluated on piece cores so placement tolerance cannot alarm; file names through the CLI."
+    )
     technique = (
         "exhaustive scope enumeration on the real ScaffoldNamer/BuildAssembly: every decoration of <=3-piece PretextView scripts with "
         "scaffold-level (painted, name, haplotype, Target) and piece-level (Haplotig, Contaminant, FalseDuplicate) tags; reference routing "
